@@ -341,3 +341,24 @@ PROPS["C01"] = dict(
     assumptions=["programs are generated in topological order by construction (single assignment)"],
     stages=_c01,
 )
+
+def _c02(tier):
+    st = [mc("histories-2-calls", "MC_C02.tla", "MC_C02_quick.cfg", min_cases=1000, workers=6),
+          mc("histories-3-calls-single-input-models", "MC_C02.tla", "MC_C02_quick3.cfg", min_cases=1000, workers=6),
+          design("asis-effects-antivacuity", "MC_C02.tla", "MC_C02_asis.cfg", expect_rc=13, workers=2,
+                 note="with the as-is effect summaries (in-place reshape of bias / initial state / ArgMax input) TLC must find a history that violates WeightsAndCallerTensorsImmutable")]
+    if tier == "thorough":
+        st.append(mc("histories-3-calls", "MC_C02.tla", "MC_C02_thorough.cfg", min_cases=50000, timeout=3000))
+    return st
+
+
+PROPS["C02"] = dict(
+    rule="BFS over the Interp state machine (object heap, one Run at a time): for each of 9 models that consume a weight or a caller "
+         "tensor as convolution bias, initial recurrent state (GRU/LSTM/RNN), reduction operand, Expand/Concat/Constant/Scaler/Gemm "
+         "operand, every history of 2 calls (3 calls for the single-input models; 3 calls for all models in the thorough tier) where "
+         "each input of a call is a fresh tensor (batch 1, batch 2 or a wrong rank), the tensor OBJECT of an earlier call, an OUTPUT "
+         "object of an earlier call, or missing; after every call: outputs vs the specification, deep snapshots of caller tensors and "
+         "of the weights, and bit-wise comparison with a freshly loaded model; non-trivial = every history",
+    assumptions=["weights are read through the build-tag accessor VerifParameters"],
+    stages=_c02,
+)
